@@ -152,6 +152,16 @@ FIXED = [
     ('div', ('mul', ('S', 1), ('D', 1)), Q(3, 2)), ('rscale', ('X', 1), Iv(-3)), ('neg', ('S', 2)),
 ]
 
+# extra catalogue unit (cat_08): template parameters above the range the random grammar draws (n up to 7)
+HIGH = [
+    ('X', 5),
+    ('mul', ('X', 4), ('D', 1)),
+    ('mul', ('D', 2), ('X', 6)),
+    ('sub', ('X', 7), ('lscale', Iv(2), ('X', 5))),
+    ('div', ('mul', ('S', 0), ('X', 4)), Iv(3)),
+    ('mul', ('D', 5), ('X', 5)),
+]
+
 def emit_unit(path, exprs, seed, unit):
     n = len(exprs)
     rng = random.Random(seed * 7919 + unit)
@@ -180,6 +190,11 @@ def emit_unit(path, exprs, seed, unit):
 def main():
     seed, units, per, outdir = int(sys.argv[1]), int(sys.argv[2]), int(sys.argv[3]), sys.argv[4]
     catalogue = '--catalogue' in sys.argv
+    if '--high' in sys.argv:
+        os.makedirs(outdir, exist_ok=True)
+        emit_unit(os.path.join(outdir, 'cat_08.cpp'), HIGH, seed, 8)
+        print('wrote cat_08.cpp')
+        return
     rng = random.Random(seed)
     os.makedirs(outdir, exist_ok=True)
     total = units * per
